@@ -635,7 +635,7 @@ SPECS["C13"] = {
                    "compared with the specification: identity namespace/name and the tag derived from the CURRENT labels of the running, non-host-network, not-being-deleted pod holding the "
                    "IP (tag name = the regex's 'tag' group, only for matching keys), or nothing. VerifC13_Regexes/RegexesUpd repeat add-lookup(-update-lookup) under three further regex "
                    "configurations chosen symbolically: a named group that captures nothing for one key and something for another (`^team(-(?P<tag>.+))?$`: whole key vs. group), no named "
-                   "group (whole key), and an annotation regex instead of a label regex; expected tag SETS are computed by the harness per configuration.",
+                   "group (whole key), an annotation regex instead of a label regex, and BOTH regexes disagreeing on keys that occur as a label and as an annotation of the same pod (each key is judged only by the regex of its kind); expected tag SETS are computed by the harness per configuration.",
     "bounds": {"quick": "all histories of 2 events; the scripted histories add-lookup-update-lookup and add-lookup-delete-lookup with every symbolic pod attribute", "thorough": "all histories of 3 events"},
     "outside": ["client-go's informer itself (reflection, goroutines): replaced by the model above", "handler/lookup races", "regular-expression semantics: one concrete label regex is executed natively by the engine",
                 "annotations (same code path as labels)", "more than two pods, pods sharing an IP"],
